@@ -22,6 +22,19 @@ type Case struct {
 }
 
 func classify(f *oracle.F, o *vf.Obs) {
+	var refs func(g *oracle.F) bool
+	refs = func(g *oracle.F) bool {
+		if g.Op == "ref" {
+			return true
+		}
+		for _, k := range g.Kids {
+			if refs(k) {
+				return true
+			}
+		}
+		return false
+	}
+	o.ClassIf(refs(f), "shares-an-object")
 	f.Walk(1, func(g *oracle.F, pol int) {
 		switch g.Op {
 		case "and", "or":
@@ -69,6 +82,7 @@ func hasAndUnderOr(f *oracle.F) bool {
 // check wraps check0: a failure on a formula that holds an exactly-one group of more than 4 names
 // at a non-positive polarity carries the signature of the open finding c11-negated-big-unique.
 func check(c Case, o *vf.Obs) error {
+	c.F.Link()
 	err := vf.Safely(func() error { return check0(c, o) })
 	if err == nil || errors.Is(err, vf.ErrInconclusive) {
 		return err
@@ -86,6 +100,7 @@ func check(c Case, o *vf.Obs) error {
 }
 
 func check0(c Case, o *vf.Obs) error {
+	c.F.Link()
 	gs.Arm(0, gs.DefaultStepLimit)
 	defer gs.Arm(0, 0)
 	classify(c.F, o)
@@ -145,6 +160,18 @@ func genCase(bigPosOnly bool) func(t *rapid.T) Case {
 		}
 		return Case{F: gen.Formula(t, gen.FormulaOpts{MaxDepth: rapid.IntRange(1, 5).Draw(t, "depth"), Names: names, MaxGroup: 9, BigGroupsPos: bigPosOnly, Groups: &[][]string{}}, 0, 1)}
 	}
+}
+
+func genShared(t *rapid.T) Case {
+	names := gen.NamePool(gen.Uniform(t, 2, 7, "names"))
+	f := gen.Formula(t, gen.FormulaOpts{MaxDepth: rapid.IntRange(2, 5).Draw(t, "depth"), Names: names, MaxGroup: 7, Groups: &[][]string{}, Shared: &[]*oracle.F{}}, 0, 1)
+	return Case{F: f}
+}
+
+func init() {
+	vf.Register(vf.Sub[Case]{Name: "shared-subformulas", Quick: 20000, Thorough: 300000, Gen: genShared, Check: check, Floor: 0.4, Journal: true,
+		Classes: map[string]float64{"shares-an-object": 0.3},
+		Rule:    "formula DAGs: a sub-formula object built once is used at several places (a fifth of the positions reuse an earlier sub-formula, often as first operand of a disjunction or premise of an implication), the way callers build rule sets from shared pieces; same oracle; non-trivial as above"})
 }
 
 func init() {
